@@ -35,6 +35,7 @@ type Cfg struct {
 	MaxLine      int // 0 = library default (2000)
 	TLSAvail     bool
 	ImplicitTLS  bool
+	ExternalTLS  bool // with ImplicitTLS: the TLS layer is the caller's own, Server.TLSConfig stays nil
 	InsecureAuth bool
 	AuthBackend  bool
 	LMTPBackend  bool
@@ -109,6 +110,14 @@ type Server struct {
 	BE       *rec.Backend
 	ErrLog   *lockedBuf
 	ServeErr chan error
+	extTLS   *tls.Config
+}
+
+func (s *Server) tlsConfig() *tls.Config {
+	if s.extTLS != nil {
+		return s.extTLS
+	}
+	return s.S.TLSConfig
 }
 
 func Start(cfg Cfg) *Server {
@@ -136,13 +145,19 @@ func StartWith(cfg Cfg, backend smtp.Backend, rb *rec.Backend) *Server {
 	s.EnableDSN = cfg.DSN
 	s.EnableRRVS = cfg.RRVS
 	s.ReadTimeout = cfg.ReadTimeout
+	var extTLS *tls.Config
 	if cfg.TLSAvail || cfg.ImplicitTLS {
 		cert, _ := TLSMaterial()
-		s.TLSConfig = &tls.Config{Certificates: []tls.Certificate{cert}}
+		tc := &tls.Config{Certificates: []tls.Certificate{cert}}
+		if cfg.ExternalTLS {
+			extTLS = tc
+		} else {
+			s.TLSConfig = tc
+		}
 	}
 	el := &lockedBuf{}
 	s.ErrorLog = log.New(el, "", 0)
-	srv := &Server{Cfg: cfg, S: s, L: pipe.NewListener(), BE: rb, ErrLog: el, ServeErr: make(chan error, 1)}
+	srv := &Server{Cfg: cfg, S: s, L: pipe.NewListener(), BE: rb, ErrLog: el, ServeErr: make(chan error, 1), extTLS: extTLS}
 	go func() { srv.ServeErr <- s.Serve(srv.L) }()
 	return srv
 }
@@ -258,7 +273,7 @@ func (s *Server) Dial() (*Conn, error) {
 	byEnd[sv] = c
 	regMu.Unlock()
 	if s.Cfg.ImplicitTLS {
-		s.L.DialConn(tls.Server(sv, s.S.TLSConfig))
+		s.L.DialConn(tls.Server(sv, s.tlsConfig()))
 		if err := c.clientTLS(); err != nil {
 			return c, err
 		}
@@ -336,7 +351,7 @@ func (s *Server) DialForClient() (*Conn, error) {
 	byEnd[sv] = c
 	regMu.Unlock()
 	if s.Cfg.ImplicitTLS {
-		s.L.DialConn(tls.Server(sv, s.S.TLSConfig))
+		s.L.DialConn(tls.Server(sv, s.tlsConfig()))
 		_, pool := TLSMaterial()
 		tc := tls.Client(c.Raw, &tls.Config{RootCAs: pool, ServerName: "verif.test"})
 		c.Raw.SetDeadline(time.Now().Add(5 * time.Second))
